@@ -1098,6 +1098,17 @@ theorem C20_program3_navigation (f : Forest) (env : List Nat) (r h : Nat) (hr : 
   · simp only [Prog3.Step.resolve, Prog3.nav, hr, Prog3.entryNodeOf]
     cases f.mapGetNode .namespaces h p <;> rfl
 
+/-- **NOT PROVED — the full-strength, handle-free reading of the denotation.**  `Prog3.denote` is computed on
+    the ordered-tree specification, whose nodes carry names; that the result does not depend on the names —
+    two stores holding the same pure trees, with the inputs at the same places (`Prog3.SameUpToNames`), give
+    the same denotation for every program — is what would make `denote` a function of `Tree`s and paths
+    alone.  It needs the invariance of every specification function (`specMoveP`, `specRemoveP`,
+    `specReplaceP`, `specUnwrapP`, `specWrap`, `specClone`, …) under renaming of handles; a closed instance
+    is checked below (`storeN` against a renamed copy). -/
+def C20_program3_handle_free_Statement : Prop :=
+  ∀ (f1 f2 : Forest) (ins1 ins2 : List Nat) (P : Prog3.Program), f1.Inv → f2.Inv → Prog.FlagsOk f1 →
+    Prog3.SameUpToNames f1 ins1 f2 ins2 → Prog3.denote f1 ins1 P = Prog3.denote f2 ins2 P
+
 /-! ### Non-vacuity: `docC` = `<!--l--><a c="v">x<b/>yz</a>` once more, by EDITING A DOCUMENT IN PLACE
 
   The store `storeN` holds a document `<a xmlns:p="…" c="o" d="w">x<g>q</g><?t d?></a>` (as a parse would
@@ -1172,6 +1183,22 @@ example :
     Prog3.firstRefused { forest := storeN, env := [0, 9] } progN = none ∧
     Prog3.inScope { forest := storeN, env := [0, 9] } progN = true := by
   decide +kernel
+
+/-- `storeN` with every node renamed (and another `next`): the same pure trees, the inputs at the same
+    places — and `progN` has the same denotation (an instance of `C20_program3_handle_free_Statement`). -/
+def storeN' : Forest :=
+  { roots := [.node 40 .document [.node 7 (.element 2) [.node 31 (.namespace 2 3) [], .node 2 (.attribute 4 ['o']) [],
+                .node 19 (.attribute 5 ['w']) [], .node 0 (.text ['x']) [],
+                .node 12 (.element 7) [.node 11 (.text ['q']) []], .node 3 (.pi 17 (some ['d'])) []]],
+              .node 25 (.element 9) [.node 5 (.element 3) [], .node 33 (.text ['y', 'z']) []]],
+    next := 57 }
+
+example : storeN'.inv = true ∧ Prog3.denote storeN' [40, 25] progN = Prog3.denote storeN [0, 9] progN ∧
+    Prog3.denoteAt storeN' [40, 25] progN 0 = some (treeOf docC) := by
+  decide +kernel
+
+example : Prog3.SameUpToNames storeN [0, 9] storeN' [40, 25] :=
+  ⟨by decide, rfl, rfl, by decide, by decide⟩
 
 /-- Ill-formed programs are refused where the specification rejects them: a navigation that finds nothing
     (`children(a).nth(3)`, the parent of a root, a missing attribute / prefix) is `unwrap()` of `None`;
